@@ -77,6 +77,12 @@ def objdef_repr(d) -> str:
         return f'LabChainObj(a={py_repr(kw["a"])})'
     if name == 'LabObjSet':
         return 'LabObjSet(tags=<set: iteration order is interpreter dependent, no frozen text>)'
+    if name in ('LabOpAdd', 'LabOpMul'):
+        return name + '(' + ', '.join(f'{k}={py_repr(v)}' for k, v in sorted({'amount': kw['amount'], 'unit': kw.get('unit')}.items())) + ')'
+    if name == 'LabOpTuned':
+        # the class names its own ignorable arguments (`cache_dir`): that REPLACES the defaults, so its `debug` and `verbose` arguments are part of the text
+        args = {'amount': kw['amount'], 'debug': kw.get('debug', False), 'verbose': kw.get('verbose', False)}
+        return name + '(' + ', '.join(f'{k}={py_repr(v)}' for k, v in sorted(args.items())) + ')'
     raise ValueError(f'unknown lab object {name}')
 
 
